@@ -545,6 +545,9 @@ class Interp:
                 out.append((s1, v["fields"][e["name"]]))
             elif v.get("v") == "tuple" and e["name"].isdigit() and int(e["name"]) < len(v["xs"]):
                 out.append((s1, v["xs"][int(e["name"])]))
+            elif v.get("v") == "hole" and v.get("kind") == "call" and e["name"].isdigit() and isinstance(v.get("callee"), str) and v["callee"].split("::")[-1] in self.f.structs and self.f.structs[v["callee"].split("::")[-1]].get("tuple") and int(e["name"]) < len(v.get("args") or []):
+                # a tuple struct built a few lines above: `Newtype(x).0` is x
+                out.append((s1, v["args"][int(e["name"])]))
             else:
                 out.append((s1, H("proj", src(e), of=v, field=e["name"], ty=self._field_ty(v, e["name"]))))
         return out
@@ -1102,7 +1105,10 @@ class Interp:
             nxt = []
             for s1, acc in outs:
                 for s2, v in self.ev(ex, s1) if ex is not None else [(s1, H("opaque", "missing-arg"))]:
-                    if "?" in spec:
+                    dt_ = self.display_text(v, s2) if not spec else None
+                    if dt_ is not None:
+                        nxt += [(s3, acc + parts_) for s3, parts_ in dt_]
+                    elif "?" in spec:
                         nxt.append((s2, acc + [("h", H("debug", src(ex), of=v, spec=spec))]))
                     elif is_str(v) and not spec:
                         nxt.append((s2, acc + v["parts"]))
@@ -1590,9 +1596,89 @@ class Interp:
                 # format_cmp!(cmp, "gid") expands to `$target` used as a value, never called; defensive
                 res.append((s1, callee))
                 continue
+            if f["k"] == "path" and len(f["segs"]) >= 2 and f["segs"][-1] in ("from", "try_from") and len(argv) == 1:
+                k_ = self._conversion_impl(f["segs"][-2], f["segs"][-1], argv[0], s1)
+                if k_ is not None:
+                    res += self.call_fn(k_, argv, s1, e)
+                    continue
             # enum constructor or unknown function: symbolic
             res.append((s1, H("call", src(e), callee=fname, args=argv)))
         return res
+
+    def _value_type(self, v):
+        """the Rust type of a value as far as the interpreter knows it"""
+        if not isinstance(v, dict):
+            return None
+        k = v.get("v")
+        if k == "char":
+            return "char"
+        if k == "bool":
+            return "bool"
+        if k == "str":
+            return "&str"
+        ev_ = self.as_enumval(v)
+        if ev_ is not None:
+            return ev_[0]
+        if k == "hole" and v.get("kind") == "call" and isinstance(v.get("callee"), str) and v["callee"].split("::")[-1] in self.f.structs:
+            return v["callee"].split("::")[-1]
+        if k == "hole" and v.get("ty"):
+            return norm_ty(v["ty"]).lstrip("&")
+        if k in ("some", "none"):
+            return "Option"
+        return None
+
+    def _conversion_impl(self, target, method, arg, st):
+        """key of the crate's `impl From<X> for Target` / `TryFrom<X>` whose X is the type of `arg`; the only impl when there is
+        just one"""
+        if target == "Self":
+            fn0 = st.env.get("__fn")
+            target = norm_ty(fn0.impl["self_ty"]).split("<")[0] if fn0 is not None and fn0.impl is not None else target
+        trait = "TryFrom" if method == "try_from" else "From"
+        cands = []
+        for k_ in self.f.fns:
+            m_ = re.match(r"^<%s as (?:std::convert::)?%s<(.*)>>::%s$" % (re.escape(target), trait, method), k_)
+            if m_:
+                cands.append((k_, m_.group(1)))
+        if not cands:
+            return None
+        if len(cands) == 1:
+            return cands[0][0]
+        ty = self._value_type(arg)
+        if ty is None:
+            return None
+        hit = [k_ for k_, x_ in cands if norm_ty(x_).lstrip("&").split("<")[0] == ty.split("<")[0] or (ty == "&str" and norm_ty(x_) in ("&str", "String", "&'staticstr"))]
+        return hit[0] if len(hit) == 1 else None
+
+    def display_text(self, v, st):
+        """[(state, parts)] of `format!("{}", v)` for a value of one of the crate's own types with a hand-written Display impl
+        (its `fmt` is run with the formatter as a string that is written to), else None"""
+        ty = self._value_type(v)
+        if ty is None or (ty not in self.f.enums and ty not in self.f.structs):
+            return None
+        key = next((k_ for k_ in self.f.fns if re.match(r"^<%s as (?:std::fmt::|fmt::|core::fmt::)?Display>::fmt$" % re.escape(ty), k_)), None)
+        if key is None:
+            return None
+        fn = self.f.fns[key]
+        fname = next((n for n, t_ in fn.params if n and n != "self"), None)
+        if fname is None or self.depth >= self.maxdepth:
+            return None
+        self.depth += 1
+        try:
+            s1 = st.fork()
+            saved_env, saved_ret = s1.env, s1.ret
+            s1.env = {"__layout": saved_env.get("__layout"), "__fn": fn, "self": v, fname: S([])}
+            s1.ret = None
+            out = []
+            for s2, rv in self.exec_block(fn.body["stmts"], s1):
+                txt = s2.env.get(fname)
+                if not is_str(txt):
+                    return None
+                s2.env = dict(saved_env)
+                s2.ret = saved_ret
+                out.append((s2, list(txt["parts"])))
+            return out
+        finally:
+            self.depth -= 1
 
     def derived_default(self, ty, depth=0):
         """Value of `T::default()` for a crate struct that derives Default (no hand-written impl)."""
@@ -1826,6 +1912,14 @@ class Interp:
             if key in self.f.fns:
                 return self.call_method(key, argv, st, e, prefix=rv["prefix"])
             return [(st, H("mcall", src(e), method=m, recv=H("field", "self." + rv["prefix"][:-1], field=rv["prefix"][:-1]), args=argv, ty=None))]
+        if m == "write_str" and len(argv) == 1 and k in ("bufref", "str"):
+            # fmt::Write::write_str on a String (or a formatter modelled as one) appends and cannot fail
+            res_ = self.ev({"k": "mcall", "l": e.get("l"), "recv": e["recv"], "m": "push_str", "targs": [], "args": [e["args"][0]]}, st)
+            return [(s1, {"v": "okunit"}) for s1, _ in res_]
+        if m == "to_string" and not argv and k == "hole":
+            dt_ = self.display_text(rv, st)
+            if dt_ is not None:
+                return [(s3, S(parts_)) for s3, parts_ in dt_]
         if m == "write_fmt" and len(argv) == 1 and k in ("bufref", "str"):
             # String::write_fmt(format_args!(..)) appends the formatted text and cannot fail
             res_ = self.ev({"k": "mcall", "l": e.get("l"), "recv": e["recv"], "m": "push_str", "targs": [], "args": [e["args"][0]]}, st)
